@@ -39,7 +39,7 @@ CHECKS = {
          "DESIGN.md section 3, C06"),
  "C07": ("exploration",
          "bounded exhaustive enumeration of (list, macro form, body) cells with call-recording bodies against the defining folds; every insertion order and construction path of small maps for the key-order part",
-         "All lists of length <=5/6 over {0,1,2}, all 0/1 lists up to length 8/10 and lists of length 16..64 (thorough: every length 11..64) with at most one/two 1s x 74 macro forms (all, exists, exists_one, filter x 11 bodies; map/2 x 4; map/3 x 20; reduce x 6 - bodies read the loop variable, an outer variable, a stored program, inner macros re-using the name or reading the outer loop variable, a call-recording function, fail at one element, or read an unbound name) x literal/bound list x outer binding of the loop-variable name absent/100 x the name read before/after the macro: result and exact call log (visiting order, stopping point) equal the fold; caller's binding unchanged. Every non-empty subset of 4 keys x 5 map macro forms with the map built in every insertion order by 4 construction paths, twice: one fixed key order. All lists of length <=3 over 10 elements of every type x 9 macro forms; all macro forms with programs stored under the loop-variable names. Complete for these bounds only.",
+         "All lists of length <=5/6 over {0,1,2}, all 0/1 lists up to length 8/10 and lists of length 16..64 (thorough: every length 11..64) with at most one/two 1s x 74 macro forms (all, exists, exists_one, filter x 11 bodies; map/2 x 4; map/3 x 20; reduce x 6 - bodies read the loop variable, an outer variable, a stored program, inner macros re-using the name or reading the outer loop variable, a call-recording function, fail at one element, or read an unbound name) x literal/bound list x outer binding of the loop-variable name absent/100 x the name read before/after the macro: result and exact call log (visiting order, stopping point) equal the fold; caller's binding unchanged. Every non-empty subset of 4 keys x 5 map macro forms with the map built in every insertion order by 4 construction paths, twice: one fixed key order; the same key sets under 4 macro forms whose body fails with a different error class on different keys, four fresh programs each: the outcome does not depend on the map instance. All lists of length <=3 over 10 elements of every type x 9 macro forms; all macro forms with programs stored under the loop-variable names. Complete for these bounds only.",
          "Trusted: the folds in c07.rs. Sortedness of the key order is not demanded.",
          "DESIGN.md section 3, C07"),
  "C08": ("exploration",
@@ -80,7 +80,7 @@ CHECKS = {
          "DESIGN.md section 3, C14"),
  "C15": ("exploration",
          "bounded exhaustive enumeration of (string, needle) pairs, regex x string x template cells, numeric grid cells and argument-type tuples against naive reference implementations",
-         "All strings of length <=3/4 over {a,b,A,blank,e-acute,E-acute,sharp-s,dotted-I} x all needles of length <=2 for the 14 searching/splitting/replacing functions, splitAt at every offset, 14 regex patterns x all strings of length <=2/3 x 5 templates against the regex crate, the 8 math functions over the numeric grid (pow over all pairs of 100 values) against exact i128/IEEE references, and every documented function x every argument-type tuple of arity 0..3/4 over a one-value-per-type pool (undocumented shapes must fail). Complete for these bounds only.",
+         "All strings of length <=3/4 over {a,b,A,blank,e-acute,E-acute,sharp-s,dotted-I} x all needles of length <=2 for the 14 searching/splitting/replacing functions, all strings of length <=2/3 x needles <=2 over 10 characters whose lower-case form changes the UTF-8 length (KELVIN SIGN, capital sharp s, dotted capital I, ANGSTROM SIGN and what they fold to) for the six containment functions in bound and literal form, splitAt at every offset, 14 regex patterns x all strings of length <=2/3 x 5 templates against the regex crate, the 8 math functions over the numeric grid (pow over all pairs of 100 values) against exact i128/IEEE references, and every documented function x every argument-type tuple of arity 0..3/4 over a one-value-per-type pool (undocumented shapes must fail). Complete for these bounds only.",
          "Trusted: Rust's case mapping, the regex crate as the definition of regex semantics, IEEE hardware. Empty needles, sqrt of negative ints, rounding outside the int range and the undocumented call form are unspecified. Two known findings (null treated as absent by the overload dispatch).",
          "DESIGN.md section 3, C15"),
  "C16": ("exploration",
@@ -95,17 +95,17 @@ CHECKS = {
          "DESIGN.md section 3, C17"),
  "C18": ("exploration",
          "bounded exhaustive enumeration of token sequences x whitespace layouts with a walk over every node of the public syntax tree, and of all single-token edits for the error locations",
-         "15.4k/0.5M token sequences (every flat operator sequence with <=1/2 operators, plain and with 29 prefix/postfix decorations on one operand, operands partly string literals with 2- and 4-byte characters, plus 30 structural sources) x 6 whitespace policies x 4 paddings: every expression node has a span inside the source, inside its parent and disjoint from its siblings, the root spans the trimmed source, the spanned text compiled alone gives the same canonical subtree; every token span is increasing, non-overlapping and re-lexes to the same token. Every single-token deletion, duplication, replacement by each of 12 tokens and truncation of those sequences in 3 layouts (8.4M/... edited sources): a syntax-error location has line < number of lines and column <= the length of that line. Complete for these bounds only.",
+         "15.4k/0.5M token sequences (every flat operator sequence with <=1/2 operators, plain and with 29 prefix/postfix decorations on one operand, operands partly string literals with 2- and 4-byte characters, plus 30 structural sources) x 6 whitespace policies x 4 paddings: every expression node has a span inside the source, inside its parent and disjoint from its siblings, the root spans the trimmed source, the spanned text compiled alone gives the same canonical subtree; every token span is increasing, non-overlapping and re-lexes to the same token. Every single-token deletion, duplication, replacement by each of 12 tokens and truncation of those sequences in 3 layouts (8.4M/... edited sources): a syntax-error location has line < number of lines and column <= the length of that line; the same for every one-character deletion, truncation, insertion and replacement (14 characters incl. line break, quotes, backslash, braces) of 22 sources whose tokens have inner structure (escapes, raw/triple-quoted strings, f-string holes, hex/exponent numbers) and every pair (line break anywhere, insertion anywhere). Complete for these bounds only.",
          "Lines/columns count characters from 0. Spans of match patterns and of the auxiliary !/- list nodes are excluded.",
          "DESIGN.md section 3, C18"),
  "C19": ("exploration",
          "bounded exhaustive enumeration of generated and constant-rich programs x {serde_json, bincode} x bindings, differential between the original and the round-tripped program",
-         "13k/0.3M programs: the C10 program set (every ByteCode variant, nested code blocks for calls, macros and f-strings) plus 428 constant-rich programs (every serialisable value variant with boundary payloads - int/uint extremes, +-0.0, +-inf, NaN, subnormals, strings with quotes/NUL/non-BMP, all 256 bytes, nested lists/maps, types, timestamps and durations at millisecond resolution incl. negative and extreme - and every error constant the folder produces, each alone and inside a list, a map, a comparison, a macro, a ternary, a coalesce) in both formats: serialization and deserialization succeed, source and parameter set equal, a second round trip has the same bytes, and both programs give the same value or the same error kind under 4 bindings. Complete for this program set only.",
+         "13k/0.3M programs: the C10 program set (every ByteCode variant, nested code blocks for calls, macros and f-strings) plus 428 constant-rich programs (every serialisable value variant with boundary payloads - int/uint extremes, +-0.0, +-inf, NaN, subnormals, strings with quotes/NUL/non-BMP, all 256 bytes, nested lists/maps, types, timestamps and durations at millisecond resolution incl. negative and extreme - and every error constant the folder produces, each alone and inside a list, a map, a comparison, a macro, a ternary, a coalesce) in both formats: serialization and deserialization succeed, source and parameter set equal, a second round trip has the same bytes, and both programs give the same value or the same error kind under 5 bindings (1, 'a', true, 0, unbound), a program with a map constant being read back 8 times from the same bytes (folded maps of 2 and 12 keys under filter/map bodies that fail differently per key included). Complete for this program set only.",
          "Sub-millisecond time constants are outside the statement. For programs reading the clock only the outcome class is compared. The Python/WASM entry points are not built; they call the same serde implementations.",
          "DESIGN.md section 3, C19"),
  "C20": ("exploration",
          "bounded exhaustive enumeration of source trees over the translatable subset and of hostile string literals in every string position; the emitted SQL is read back by an independent tokenizer/parser for the emitted dialect and compared with the source tree",
-         "All source trees with <=1/2 construct nodes over 8 leaves and the full alphabet (14 binary operators, ! and - runs, ?:, parentheses, lists, maps, free calls with 0..3 arguments, 9 type constructors with 0..2 arguments, method calls on any receiver, member and index access) plus all trees with exactly 2/3 nodes over a reduced alphabet (475k / 171M, enumerated lazily by index), match/bytes/f-string in 12 positions each, and all 820/7381 strings of length <=3/4 over {a ' \" \\ - ; LF * /} in 9 positions, and 12 field/method names spelled like words of the emitted dialect. The SQL is tokenised by the SQL standard string rules and parsed with SQL precedences (:: [] -> call tightest, then ! -, * / %, + -, comparisons/in, AND, OR): the tree must equal the source tree, the multiset of string tokens must equal the CEL strings and member names, no comment opener or semicolon outside a string; untranslatable constructs must be reported unsupported, never a panic. Complete for these bounds only.",
+         "All source trees with <=1/2 construct nodes over 8 leaves and the full alphabet (14 binary operators, ! and - runs, ?:, parentheses, lists, maps, free calls with 0..3 arguments, 9 type constructors with 0..2 arguments, method calls on any receiver, member and index access) plus all trees with exactly 2/3 nodes over a reduced alphabet (475k / 171M, enumerated lazily by index), match/bytes/f-string in 12 positions each, and all 820/7381 strings of length <=3/4 over {a ' \" \\ - ; LF * /} in 12 positions, and 12 field/method names spelled like words of the emitted dialect. The SQL is tokenised by the SQL standard string rules and parsed with SQL precedences (:: [] -> call tightest, then ! -, * / %, + -, comparisons/in, AND, OR): the tree must equal the source tree, the multiset of string tokens must equal the CEL strings and member names, no comment opener or semicolon outside a string; every source is translated in two more layouts (line breaks for blanks; line breaks after commas/brackets with raw line breaks inside strings) and must give the identical SQL; untranslatable constructs must be reported unsupported, never a panic. Complete for these bounds only.",
          "Trusted: the reader in c20.rs as the meaning of the emitted dialect. Known finding: --x is emitted as the comment opener -- (pinned by a repository test).",
          "DESIGN.md section 3, C20"),
 }
